@@ -45,9 +45,17 @@ const (
 )
 
 func (f *FIXUTCTimestamp) Read(bytes []byte) (err error) {
-	// time.Parse takes a comma as well as a period before the fractional seconds, FIX only a period.
-	if len(bytes) > 17 && bytes[17] != '.' {
-		return errors.New("Invalid Value for Timestamp: " + string(bytes))
+	// time.Parse takes a comma as well as a period before the fractional seconds, and a sign in
+	// front of their digits; FIX takes a period followed by digits only.
+	if len(bytes) > 17 {
+		if bytes[17] != '.' {
+			return errors.New("Invalid Value for Timestamp: " + string(bytes))
+		}
+		for _, c := range bytes[18:] {
+			if c < '0' || c > '9' {
+				return errors.New("Invalid Value for Timestamp: " + string(bytes))
+			}
+		}
 	}
 
 	switch len(bytes) {
